@@ -45,7 +45,7 @@ def _guard(f, args, label):
         tb = traceback.extract_tb(ex.__traceback__)
         last = tb[-1]
         inrepo = "/pyyeti/" in last.filename and "/verif/" not in last.filename
-        st = "failed" if (inrepo and (last.line or "").strip().startswith("raise")) else "undecided"
+        st = "undecided"          # an exception on symbolic stand-ins is a tool limit, never a violation by itself (concrete arms report real exceptions)
         return [dict(name="%s%s::symbolic run completes" % (label, args), status=st, seconds=time.time() - t0,
                      detail={"reason": "%r at %s:%s" % (ex, last.filename, last.lineno)})]
 
